@@ -903,7 +903,7 @@ def rd_key(rd, origin=None):
     return (rel, b"".join(out))
 
 
-def gen_rrset(rng, pool, rdclass=IN, types=None, used=None, section=1):
+def gen_rrset(rng, pool, rdclass=IN, types=None, used=None, section=1, fixed_class=False):
     """a non-empty rrset with distinct rdatas; `used` holds the keys already taken in the section"""
     rdclass0 = rdclass
     for _ in range(20):
@@ -915,7 +915,7 @@ def gen_rrset(rng, pool, rdclass=IN, types=None, used=None, section=1):
                 continue
         elif r_ < 0.33 and types is None:
             rdtype = rng.choice(FIELD_TYPES_ALL)
-            if rdclass == IN and rng.random() < 0.06:
+            if rdclass == IN and not fixed_class and rng.random() < 0.06:
                 rdclass, rdtype = CH, A          # Chaosnet A: a name and an address
         else:
             rdtype = rng.choice(types or TYPES_IN)
@@ -1045,7 +1045,7 @@ def gen_update(rng, origin=None, normal=True):
         elif r < 0.7:  # rrset does not exist
             secs[1].append([name, zclass, rng.choice([A, MX, TXT, 65280]), 0, NONE, 0, []])
         else:          # rrset exists (value dependent): one RR per rrset after parsing
-            rs = gen_rrset(rng, pool, zclass)
+            rs = gen_rrset(rng, pool, zclass, fixed_class=True)
             if rs is not None:
                 rs[5] = 0
                 for rd in rs[6]:
@@ -1054,7 +1054,7 @@ def gen_update(rng, origin=None, normal=True):
         r = rng.random()
         name = pool.name()
         if r < 0.35:   # add
-            rs = gen_rrset(rng, pool, zclass)
+            rs = gen_rrset(rng, pool, zclass, fixed_class=True)
             if rs is not None:
                 for rd in rs[6]:
                     secs[2].append(rs[:6] + [[rd]])
@@ -1063,7 +1063,7 @@ def gen_update(rng, origin=None, normal=True):
         elif r < 0.65:  # delete all rrsets from a name
             secs[2].append([name, zclass, 255, 0, ANY, 0, []])
         else:          # delete an rr from an rrset
-            rs = gen_rrset(rng, pool, zclass)
+            rs = gen_rrset(rng, pool, zclass, fixed_class=True)
             if rs is not None:
                 rs[4] = NONE
                 rs[5] = 0
@@ -1071,7 +1071,7 @@ def gen_update(rng, origin=None, normal=True):
                     secs[2].append(rs[:6] + [[rd]])
     used = set()
     for _ in range(rng.choice([0, 0, 1, 2])):
-        rs = gen_rrset(rng, pool, rng.choice([IN, zclass]), used=used)
+        rs = gen_rrset(rng, pool, rng.choice([IN, zclass]), used=used, fixed_class=True)
         if rs is not None:
             for rd in rs[6]:
                 secs[3].append(rs[:6] + [[rd]])
